@@ -59,6 +59,14 @@ def elements (f : Val → Nat → Bytes) : List Val → Nat → Bytes
   | [], _ => []
   | v :: vs, rel => let b := f v rel; b ++ elements f vs (rel + b.length)
 
+/-- wide string in the form dust-dds and its peers in the interoperability suite exchange: a UInt32 with the number of
+    UTF-16 code units INCLUDING a terminating zero unit, the units as UInt16, the zero unit. (The text of rule (4) of
+    the standard is not available offline; this definition is independent of the model only in its form.) -/
+def wstring (ver : Ver) (e : Endian) (us : List Val) (rel : Nat) : Bytes :=
+  let n := uint32 ver e (us.length + 1) rel
+  let b := elements (fun v r => uint16 ver e v.unit r) us (rel + n.length)
+  n ++ b ++ uint16 ver e 0 (rel + n.length + b.length)
+
 /-- `{ DHEADER(O) : UInt32 }` followed by the delimited object: DHEADER = size of what follows it -/
 def delimited (ver : Ver) (e : Endian) (body : Nat → Bytes) (rel : Nat) : Bytes :=
   let p := alignPad ver 4 rel
@@ -212,7 +220,9 @@ mutual
     -- (3)
     | .str, .str bs, rel => string ver e bs rel
     -- (5) `{ O.value : O.holder_type }`
-    | .enum h _, .num x, rel => primitive ver e h x rel
+    | .enum h _ _, .num x, rel => primitive ver e h x rel
+    -- wide string, as dust-dds writes it (see `wstring`)
+    | .wstr, .list us, rel => wstring ver e us rel
     -- (11) PSEQUENCE, (12) XCDR2 SEQUENCE with DHEADER, (13) XCDR1 SEQUENCE
     | .seq el, .list vs, rel =>
       let body : Nat → Bytes := fun r =>
@@ -235,7 +245,19 @@ mutual
       match ver with
       | .v1 => plist1 d e (order d (present d ver e ms fs)) rel
       | .v2 => delimited ver e (plist2 d e (order d (present d ver e ms fs))) rel
+    -- (26) FUNION = `{ O.disc : NOPT_FMEMBER } { O.selected_member : FMEMBER }?`
+    | .union disc bs, .struct fs, rel =>
+      match fs with
+      | [.num x, .num id, v] =>
+        let b := primitive ver e disc x rel
+        b ++ branch d ver e bs id v (rel + b.length)
+      | [.num x] => primitive ver e disc x rel
+      | _ => []
     | _, _, _ => []
+  /-- the selected member of a union: the branch with the member id the value names -/
+  def branch (d : Dialect) (ver : Ver) (e : Endian) : Bs → Nat → Val → Nat → Bytes
+    | .cons id' _ _ t r, id, v, rel => if id' == id then ser d ver e t v rel else branch d ver e r id v rel
+    | .nil, _, _, _ => []
   /-- (17) `{ O.member[i] : FMEMBER }*` -/
   def fmembers (d : Dialect) (ver : Ver) (e : Endian) : Ms → List Val → Nat → Bytes
     | .cons id opt mu t rest, f :: fs, rel =>
